@@ -694,8 +694,9 @@ ENC = {"bin": enc_bin, "le": enc_le, "cmp": enc_cmp}
 
 
 def shown(v):
-    v = canon(v)
-    return sexp(v) if v[0] == "struct" else "raw:" + (enc_bin(v).hex() or "-")
+    """how the harness shows a decoded value: its canonical tree (the harness reads the value's binary re-encoding back by the wire
+    type the IDL gives the declared type)"""
+    return sexp(canon(v))
 
 
 def expected(items, name, v):
